@@ -37,6 +37,50 @@ void check_solution(Ctx &c, Scenario &sc, Runner &run, long double tol, long dou
     PBT_CHECK(c, worst <= 10 * bound, "C02.dut_mismatch", "%s: corrected device off by %.3Lg (bound %.3Lg; tol %.1Lg, kappa %.3Lg)", path, worst, 10 * bound, tol, kappa);
 }
 
+// "Solve again on another grid": the same unknown handles are solved a second time on a different frequency grid
+// of the same length -- on the same vnacal_new_t after vnacal_new_set_frequency_vector, or in a second
+// vnacal_new_t of the same vnacal_t.  vnacal_get_parameter_value must then answer with the values of the new
+// solve at the new frequencies (the measurements, and so the truths, stay attached to the frequency index).
+// The new grid lies inside the old one, so vector guesses made on the old grid stay defined (and in the basin:
+// the truths turn by 0.05 rad per index); known vector cells are re-made on the new grid (second object) or
+// absent (same object); a 1-point vector guess has no other frequency to be evaluated at: skipped.
+template <class Setup>
+void resolve_on_other_grid(Ctx &c, Scenario &sc, Runner &run, long double tol, long double kappa, const char *path, bool must_solve, Setup setup) {
+    bool known_vec = false, guess_vec = false;
+    for (auto &st : sc.stds) for (auto &cell : st.cells) if (cell.uparam < 0 && cell.kind == SCell::VECTOR) known_vec = true;
+    for (auto &u : sc.uparams) if (!u.correlated && u.guess_vector) guess_vec = true;
+    if (sc.F == 1 && guess_vec) { c.label("regrid:skipped(1-point vector guess)"); return; }
+    bool same_object = !known_vec && c.boolean();
+    std::vector<double> f2(sc.F);
+    if (sc.F == 1) f2[0] = sc.freq[0] * (c.boolean() ? 1.25 : 0.75);
+    else {
+        for (int i = 0; i + 1 < sc.F; i++) f2[i] = sc.freq[i] + 0.3 * (sc.freq[i + 1] - sc.freq[i]);
+        f2[sc.F - 1] = sc.freq[sc.F - 1] - 0.3 * (sc.freq[sc.F - 1] - sc.freq[sc.F - 2]);
+    }
+    c.note("  re-solve on another grid (%s): f[0] %.6g -> %.6g", same_object ? "same vnacal_new_t, set_frequency_vector" : "second vnacal_new_t sharing the unknown handles", sc.freq[0], f2[0]);
+    sc.freq = f2;
+    if (same_object) {
+        PBT_CHECK(c, vnacal_new_set_frequency_vector(run.vnp, f2.data()) == 0, "C02.regrid_refused", "vnacal_new_set_frequency_vector after a solve failed: %s", run.log.text().c_str());
+        c.label("regrid:same-object");
+    } else {
+        vnacal_new_free(run.vnp); run.vnp = nullptr;
+        for (auto &st : sc.stds) for (auto &cell : st.cells) if (cell.uparam < 0) cell.handle = -1;     // known cells: fresh parameters on the new grid
+        run.alloc(); setup(run);
+        for (auto &st : sc.stds) PBT_CHECK(c, run.add(st) == 0, "C02.add_refused", "add refused in the second vnacal_new_t: %s", run.log.text().c_str());
+        c.label("regrid:second-object");
+    }
+    run.log.clear(); errno = 0;
+    int rc = vnacal_new_solve(run.vnp); int err = errno;
+    if (rc != 0) {
+        PBT_CHECK(c, err == EDOM && run.log.n_nonwarning() >= 1, "C02.failure_report", "re-solve failed with errno %d (%s) / callbacks: %s", err, strerror(err), run.log.text().c_str());
+        PBT_CHECK(c, !must_solve, "C02.trl_failed", "analytic TRL failed when solved again on another grid (kappa %.3Lg): %s", kappa, run.log.text().c_str());
+        c.label("regrid:solve-failed"); return;
+    }
+    PBT_CHECK(c, run.log.n_nonwarning() == 0, "C02.success_with_error_callback", "re-solve returned 0 but reported: %s", run.log.text().c_str());
+    c.label("regrid:solved");
+    check_solution(c, sc, run, tol, kappa, path);
+}
+
 void describe(Ctx &c, Scenario &sc) {
     c.note("%s, %zu unknown parameters", sc.describe().c_str(), sc.uparams.size());
     for (auto &st : sc.stds) c.note("  %s", st.describe().c_str());
@@ -97,6 +141,13 @@ void trl(Ctx &c, bool near) {
     long double kappa = 0; bool det = true;
     for (int f = 0; f < sc.F; f++) { vm::Ident id = ident_with_unknowns(sc, f); if (!id.determining) det = false; kappa = std::max(kappa, id.kappa); }
     if (!near && !det) { c.label("filtered:not-determining"); return; }
+    // A perfectly matched test port makes the closed-form reflect solution 0/0; the library then solves that
+    // frequency with its general iterative method (default tolerances 1e-6), so the closed-form bound and the
+    // "must succeed" assertion apply only when both ports have a match error (generated ones are >= 0.004).
+    bool ideal_port = false;
+    for (int f = 0; f < sc.F; f++) for (int i = 0; i < 2; i++) if (sc.box[f].Em(i, i) == C(0, 0)) ideal_port = true;
+    if (ideal_port) c.label("TRL:ideal-port");
+    const bool iterative = near || ideal_port;
 
     Runner run(c, sc); run.create(); run.alloc();
     int idx = 0;
@@ -105,14 +156,15 @@ void trl(Ctx &c, bool near) {
     int rc2 = vnacal_new_solve(run.vnp); int err = errno;
     if (rc2 != 0) {
         PBT_CHECK(c, err == EDOM && run.log.n_nonwarning() >= 1, "C02.failure_report", "solve failed with errno %d (%s) / callbacks: %s", err, strerror(err), run.log.text().c_str());
-        PBT_CHECK(c, near, "C02.trl_failed", "analytic TRL failed on a well-conditioned instance (kappa %.3Lg): %s", kappa, run.log.text().c_str());
+        PBT_CHECK(c, iterative, "C02.trl_failed", "analytic TRL failed on a well-conditioned instance (kappa %.3Lg): %s", kappa, run.log.text().c_str());
         c.label("solve:failed"); return;
     }
     c.label("solve:ok");
     PBT_CHECK(c, run.log.n_nonwarning() == 0, "C02.success_with_error_callback", "solve returned 0 but reported: %s", run.log.text().c_str());
     if (near && !det) { c.label("near-TRL:not-determining"); return; }
     c.nontrivial();
-    check_solution(c, sc, run, near ? 1e-6L : 0, kappa, near ? "near-TRL" : "TRL");      // near-TRL sets go through the iterative solver with the default tolerances (1e-6)
+    check_solution(c, sc, run, iterative ? 1e-6L : 0, kappa, near ? "near-TRL" : ideal_port ? "TRL-ideal-port" : "TRL");      // near-TRL sets go through the iterative solver with the default tolerances (1e-6)
+    if (c.chance(1, 3)) resolve_on_other_grid(c, sc, run, iterative ? 1e-6L : 0, kappa, near ? "near-TRL-regrid" : ideal_port ? "TRL-ideal-port-regrid" : "TRL-regrid", !iterative, [](Runner &) {});
 }
 
 // ---- (b) Levenberg-Marquardt ------------------------------------------------------------------
@@ -176,6 +228,10 @@ void lm(Ctx &c) {
     if (single_with_unknown || sc.uparams.size() >= 2 || correlated || itlimit <= 3) c.nontrivial();
     // with error weighting the exact data are still exact: same bound
     check_solution(c, sc, run, std::max(ptol, ettol), kappa, "LM");
+    auto knobs = [&](Runner &r) {
+        PBT_CHECK(c, vnacal_new_set_p_tolerance(r.vnp, (double)ptol) == 0 && vnacal_new_set_et_tolerance(r.vnp, (double)ettol) == 0 && vnacal_new_set_iteration_limit(r.vnp, itlimit) == 0, "C02.knobs", "setters failed");
+        if (m_error) { double nf = 1e-6; PBT_CHECK(c, vnacal_new_set_m_error(r.vnp, nullptr, 1, &nf, nullptr) == 0, "C02.set_m_error", "set_m_error failed"); }
+    };
     // "tightening the tolerances tightens the result": the same instance with both tolerances / 100 must, if it
     // converges within the limit, meet the correspondingly tighter bound
     if (itlimit > 3 && c.chance(1, 3)) {
@@ -187,7 +243,9 @@ void lm(Ctx &c) {
         run2.log.clear(); errno = 0;
         if (vnacal_new_solve(run2.vnp) == 0) { c.label("tightened:ok"); check_solution(c, sc, run2, std::max(p2, e2), kappa, "LM-tightened"); }
         else { PBT_CHECK(c, errno == EDOM, "C02.failure_report", "tightened run failed with errno %d", errno); c.label("tightened:failed"); }
+        return;     // run2 re-made the parameter handles in its own vnacal_t
     }
+    if (itlimit > 3 && c.chance(1, 2)) resolve_on_other_grid(c, sc, run, std::max(ptol, ettol), kappa, "LM-regrid", false, knobs);
 }
 
 } // namespace
